@@ -1324,13 +1324,16 @@ class Executor(object):
                 # objects that existed when the try block was entered keep their value: one obligation per joined path
                 base_arr = base.field_arr(f)
                 r = z3.Int("r!join")
-                m.heap[f] = z3.Lambda([r], z3.If(r < base.aptr, z3.Select(base_arr, r), z3.Select(hav, r)))
+                refs_ = getattr(self, "frame_refs", lambda f_: [])(f)
+                m.heap[f] = z3.Lambda([r], z3.If(z3.And(r < base.aptr, *[r != x_ for x_ in refs_]), z3.Select(base_arr, r),
+                                                 z3.Select(hav, r)))
                 fr = z3.Int("FREE!rjoin")
                 for s_ in states:
                     a = s_.field_arr(f)
                     if a.eq(base_arr):
                         continue
-                    goal = z3.Implies(z3.And(fr >= 0, fr < base.aptr), z3.Select(a, fr) == z3.Select(base_arr, fr))
+                    goal = z3.Implies(z3.And(fr >= 0, fr < base.aptr, *[fr != x_ for x_ in refs_]),
+                                      z3.Select(a, fr) == z3.Select(base_arr, fr))
                     s_.obligations.append(Obligation("%s/join-frame[%s]" % (self.env.fn.key, f), s_.hyps(), goal, s_.sig,
                                                      "join-frame", f, self.env.contract.props if self.env.contract else ()))
         for g in set().union(*[set(s_.ghost) for s_ in states]):
@@ -1359,7 +1362,7 @@ class Executor(object):
         body_results = self.exec_block(st, stmt.body)
         raising = [(s, ctl) for s, ctl in body_results if ctl[0] == RAISE]
         catch_all = len(stmt.handlers) == 1 and stmt.handlers[0].type is None
-        if catch_all and len(raising) > 3:
+        if catch_all and len(raising) > 3 and getattr(self.env.contract, "join_handlers", False):
             m, exc = self.merge_raising(st, [s for s, _ in raising])
             body_results = [(s, ctl) for s, ctl in body_results if ctl[0] != RAISE] + [(m, (RAISE, exc))]
         for s, ctl in body_results:
